@@ -19,6 +19,7 @@ CONSTANTS Users,               \* user names the client may try
           GssHonoursCallback,  \* FALSE = pinned tree: both GSS branches hard-wire AUTH_SUCCESSFUL
           BlobOmits,           \* "" | "sid" | "user" | "service" | "alg" | "key": field left out of the signed blob
           KeepsResultAfterBadSig,  \* TRUE = a failed verify_ssh_sig does not reset result
+          BlobUsesCurrentHash,    \* TRUE = the server rebuilds the signed data with the LATEST exchange hash instead of the session id
           OnlyConstantsReject,    \* TRUE = _send_auth_result rejects on the two rejecting constants only: any other callback value grants
           UnpinnedUser,           \* "" | a user name for which the mid-flight comparison does not fire ("anon": pin tested for truthiness)
           EmptyListPromotesPartial,  \* TRUE = "partial" with an empty get_allowed_auths() list is sent as full success
@@ -40,7 +41,7 @@ Results    == {"ok", "partial", "fail"}
 \* User names are abstract: "anon" stands for the EMPTY user name on the wire (legal, and falsy in Python) - a user like
 \* any other.  authUser = "" means that no request has named a user yet (AuthHandler.auth_username is None).
 SigKinds   == {"absent", "good", "alt_sid", "omit_sid", "alt_user", "alt_service", "alt_alg", "alt_key", "wrong_key", "corrupt",
-               "label_other", "label_garbage"}
+               "label_other", "label_garbage", "cur_hash"}
 MicKinds   == {"good", "alt_sid", "alt_user"}
 Toks       == {"more", "done", "error"}
 
@@ -106,8 +107,11 @@ CapMessages == LET u == Primary   v == CHOOSE x \in Users : x # u   sv == "ssh-c
 \* label = the algorithm name inside the signature blob.  "label_other": a genuine signature by the request's key made
 \* with (and over a blob naming) another algorithm A2, presented under a request naming A; "label_garbage": a blob
 \* labelled A2 followed by arbitrary bytes - needs no private key at all.
-Signed(q) == [signer  |-> IF q.sig = "wrong_key" THEN "K2" ELSE IF q.sig = "label_garbage" THEN "nobody" ELSE "K",
-              sid     |-> IF q.sig = "alt_sid" THEN "other" ELSE IF q.sig = "omit_sid" THEN "left out" ELSE "this",
+\* "cur_hash": the session id field holds the exchange hash of the MOST RECENT key exchange.  Until the first
+\* re-exchange that is the session identifier itself (rk = FALSE: the very same bytes); afterwards it is another value.
+Signed(q, rk) == [signer  |-> IF q.sig = "wrong_key" THEN "K2" ELSE IF q.sig = "label_garbage" THEN "nobody" ELSE "K",
+              sid     |-> IF q.sig = "alt_sid" THEN "other" ELSE IF q.sig = "omit_sid" THEN "left out"
+                          ELSE IF q.sig = "cur_hash" /\ rk THEN "H2" ELSE "this",
               user    |-> IF q.sig = "alt_user" THEN "someone else" ELSE q.user,
               service |-> IF q.sig = "alt_service" THEN "another service" ELSE q.service,
               alg     |-> IF q.sig \in {"alt_alg", "label_other"} THEN "A2" ELSE "A",
@@ -117,13 +121,13 @@ Signed(q) == [signer  |-> IF q.sig = "wrong_key" THEN "K2" ELSE IF q.sig = "labe
 \* the server first compares the blob's label with the request's algorithm, then rebuilds the signed data
 \* (_get_session_blob) and lets the request's key verify (verify_ssh_sig)
 Same(f, a, b) == BlobOmits = f \/ a = b
-CodeVerifies(q) == LET s == Signed(q) IN
+CodeVerifies(q, rk) == LET s == Signed(q, rk) IN
     IF s.label # "A" THEN KeepsResultOnForeignLabel
     ELSE /\ s.signer = "K" /\ s.intact
-         /\ Same("sid", s.sid, "this") /\ Same("user", s.user, q.user) /\ Same("service", s.service, q.service)
+         /\ Same("sid", s.sid, IF BlobUsesCurrentHash /\ rk THEN "H2" ELSE "this") /\ Same("user", s.user, q.user) /\ Same("service", s.service, q.service)
          /\ Same("alg", s.alg, "A") /\ Same("key", s.key, "K")
 \* ground truth the property speaks about: made by the request's key over exactly this session's values
-SigValid(q) == q.sig = "good"
+SigValid(q, rk) == q.sig = "good" \/ (q.sig = "cur_hash" /\ ~rk)
 MicValid(q) == q.mic = "good"
 
 \* ------------------------------------------------------------------ state
@@ -134,13 +138,14 @@ VARIABLES cfg,           \* [gss: enable_auth_gssapi(), ctx: Transport.kexgss_ct
           alive,         \* Transport.active
           mode,          \* "plain" | "gss": which object is Transport.auth_handler
           expect,        \* Transport._expected_packet: "any" | "tok" (61,50,5) | "tokmic" (61,66,50)
+          rekeyed,       \* a key re-exchange has completed on this connection (Transport.H # Transport.session_id)
           offer,         \* the last publickey request on this connection was a probe answered with USERAUTH_PK_OK
           req,           \* the message handled by the last step
           cbs,           \* credential callbacks evaluated by the last step: Seq [name, user, res]
           out,           \* replies sent by the last step, in order
           grantedBy,     \* why the session counts as authenticated
           failed         \* number of USERAUTH_FAILURE (partial = false) replies sent so far
-vars == <<cfg, authUser, failCount, authenticated, alive, mode, expect, offer, req, cbs, out, grantedBy, failed>>
+vars == <<cfg, authUser, failCount, authenticated, alive, mode, expect, offer, rekeyed, req, cbs, out, grantedBy, failed>>
 
 Range(s) == {s[i] : i \in 1..Len(s)}
 Nobody == [user |-> "", method |-> "", cb |-> "none", proof |-> FALSE]
@@ -151,13 +156,13 @@ CfgOf(n) == [gss |-> n # "plain", ctx |-> n \in {"gss+ctx", "gss+ctx+bound"}, bo
 
 Init == /\ cfg \in {CfgOf(n) : n \in ConfigSel}
         /\ authUser = "" /\ failCount = 0 /\ authenticated = FALSE /\ alive = TRUE
-        /\ mode = "plain" /\ expect = "any" /\ offer = FALSE /\ req = Blank /\ cbs = <<>> /\ out = <<>>
+        /\ mode = "plain" /\ expect = "any" /\ offer = FALSE /\ rekeyed = FALSE /\ req = Blank /\ cbs = <<>> /\ out = <<>>
         /\ grantedBy = Nobody /\ failed = 0
 
 \* ------------------------------------------------------------------ the server's step function
 \* control state handed from one handler to the next
 Ctl == [authUser |-> authUser, failCount |-> failCount, authenticated |-> authenticated, alive |-> alive,
-        mode |-> mode, expect |-> expect, offer |-> offer, al |-> "usual"]      \* al: see Handle
+        mode |-> mode, expect |-> expect, offer |-> offer, rekeyed |-> rekeyed, al |-> "usual"]      \* al: see Handle
 Ans(s, c, o) == [st |-> s, cbs |-> c, out |-> o]
 Quiet(s) == Ans(s, <<>>, <<>>)
 Die(s, c, o) == Ans([s EXCEPT !.alive = FALSE, !.authenticated = FALSE], c, o)   \* is_authenticated() = active /\ ...
@@ -204,7 +209,7 @@ UserauthRequest(c, s, q) ==
                 IF res = "fail" THEN SendResult(s2, c1, "fail")
                 ELSE IF q.sig = "absent"
                   THEN Ans([s2 EXCEPT !.authenticated = ProbeAuthenticates, !.offer = TRUE], c1, <<"PK_OK">>)
-                ELSE IF CodeVerifies(q) \/ KeepsResultAfterBadSig THEN SendResult(s2, c1, res)
+                ELSE IF CodeVerifies(q, s.rekeyed) \/ KeepsResultAfterBadSig THEN SendResult(s2, c1, res)
                 ELSE SendResult(s2, c1, "fail")
            [] m = "keyboard-interactive" ->
                 LET c1 == <<Cb("keyboard-interactive", q.user, q.cb)>> IN
@@ -249,8 +254,9 @@ Crash(s) == Die(s, <<>>, <<>>)
 \* _parse_newkeys).  The authentication state - pinned user, failure counter - lives in the AuthHandler object,
 \* which _parse_newkeys creates only when there is none: a re-exchange changes nothing.  While a reply to the
 \* GSS-API exchange is expected, KEXINIT is not among the expected types and ends the connection.
-Rekey(s) ==
-    IF s.expect # "any" THEN Crash(s)
+Rekey(s0) ==
+    LET s == [s0 EXCEPT !.rekeyed = TRUE] IN
+    IF s0.expect # "any" THEN Crash(s0)
     ELSE IF RekeyResetsAuthState /\ ~s.authenticated
       THEN Quiet([s EXCEPT !.authUser = "", !.failCount = 0, !.mode = "plain"])
     ELSE Quiet(s)
@@ -278,7 +284,7 @@ StepUser(q, au)   == IF q.k = "request" THEN q.user ELSE au
 StepMethod(c, q, md) == IF q.k = "request" THEN EffMethod(c, q)
                         ELSE IF q.k = "gss_mic" \/ md = "gss" THEN "gssapi-with-mic" ELSE "keyboard-interactive"
 LastRes(cs, u) == LET I == {i \in 1..Len(cs) : cs[i].user = u} IN IF I = {} THEN "none" ELSE cs[Max(I)].res
-Proof(q, m) == CASE m = "publickey" -> SigValid(q) [] m \in GssMethods -> MicValid(q) [] OTHER -> TRUE
+Proof(q, m) == CASE m = "publickey" -> SigValid(q, rekeyed) [] m \in GssMethods -> MicValid(q) [] OTHER -> TRUE
 Grant(c, q, au, md, cs) == LET m == StepMethod(c, q, md) IN
     [user |-> StepUser(q, au), method |-> m, cb |-> LastRes(cs, StepUser(q, au)), proof |-> Proof(q, m)]
 Granted(was, is, o) == (is /\ ~was) \/ "SUCCESS" \in Range(o)
@@ -289,7 +295,7 @@ Step(q) ==
     /\ failed' = failed + NFail(a.out)
     /\ req' = q /\ cfg' = cfg
     /\ authUser' = a.st.authUser /\ failCount' = a.st.failCount /\ authenticated' = a.st.authenticated
-    /\ alive' = a.st.alive /\ mode' = a.st.mode /\ expect' = a.st.expect /\ offer' = a.st.offer
+    /\ alive' = a.st.alive /\ mode' = a.st.mode /\ expect' = a.st.expect /\ offer' = a.st.offer /\ rekeyed' = a.st.rekeyed
     /\ cbs' = a.cbs /\ out' = a.out
     /\ grantedBy' = IF Granted(authenticated, a.st.authenticated, a.out)
                       THEN Grant(cfg, q, authUser, mode, a.cbs) ELSE grantedBy
@@ -310,7 +316,7 @@ Bound == TLCGet("level") <= MaxDepth          \* CONSTRAINT; the .cfg files are 
 (* evaluates step properties ([][A]_vars) on EVERY transition it generates, also those into a state  *)
 (* it has already seen - so everything that mentions req / cbs / out is a step property over the     *)
 (* primed label, and the state invariants mention control variables only.                            *)
-Control == <<cfg, authUser, failCount, authenticated, alive, mode, expect, offer, grantedBy, failed>>
+Control == <<cfg, authUser, failCount, authenticated, alive, mode, expect, offer, rekeyed, grantedBy, failed>>
 
 \* C14
 GrantNeedsApproval == authenticated => (grantedBy # Nobody /\ grantedBy.cb = "ok" /\ grantedBy.proof)
